@@ -141,7 +141,7 @@ vharness! {
 }
 
 vharness! {
-    /// @prop C08 @tier thorough @mode fast @cost 3 @timeout 3600 @funcs Notify::wait,Path::branch_spurious @bounds as notify_wait_consumes_stored_t0 with spurious wake-ups enabled and not yet used (the decision point is recorded, first value: not spurious)
+    /// @prop C08 @tier experimental @mode fast @cost 3 @timeout 3600 @funcs Notify::wait,Path::branch_spurious @bounds as notify_wait_consumes_stored_t0 with spurious wake-ups enabled and not yet used (the decision point is recorded, first value: not spurious)
     /// wait() with the spurious decision point on its first exploration behaves like a normal wait and leaves the spurious budget untouched.
     #[cfg_attr(kani, kani::unwind(8))]
     fn notify_wait_consumes_stored_spurious_armed() { wait_stored_case(true, false) }
@@ -183,7 +183,7 @@ vharness! {
 }
 
 vharness! {
-    /// @prop C08 @tier thorough @mode fast @cost 2 @funcs Notify::wait,Path::branch_spurious,rt::yield_now,Thread::set_yield @bounds Notify with spurious wake-ups enabled, the spurious decision point replayed with value `true`, waiter = thread 0, thread 1 runnable
+    /// @prop C08 @tier experimental @mode fast @cost 2 @funcs Notify::wait,Path::branch_spurious,rt::yield_now,Thread::set_yield @bounds Notify with spurious wake-ups enabled, the spurious decision point replayed with value `true`, waiter = thread 0, thread 1 runnable
     /// the single modelled spurious return: wait() returns without consuming anything, marks the Notify so that no second spurious return is offered, and the waiter yields.
     #[cfg_attr(kani, kani::unwind(8))]
     fn notify_wait_spurious_once_t0() {
